@@ -482,7 +482,7 @@ func cmdCheck(args []string) int {
 				break
 			}
 			if o.ExpectSat {
-				continue // covers run with a 2 s budget and pass when not refuted
+				continue // covers run with a 1 s (quick) / 3 s (thorough) budget and pass when not refuted
 			}
 			slow = append(slow, map[string]interface{}{"obligation": shortFn(o.Fn) + "/" + o.Name, "seconds": o.Secs, "solver": o.Solver, "answer": o.Status})
 		}
